@@ -566,15 +566,16 @@ func poison(idx int64) {
 	// renders whose writer fails (at once, half-way, or after having taken everything), formatted and NoFormat: what
 	// the writer did not take must not turn up in a later render either
 	mon.Guard(func() {
-		for m := 0; m < 3; m++ {
-			for _, nf := range []bool{false, true} {
-				wf := jen.NewFile("leak")
-				wf.NoFormat = nf
-				wf.Var().Id("leakedByFailedWrite").Op("=").Lit("secretQ")
-				wf.Func().Id("leakedFuncByFailedWrite").Params().Block()
-				wf.Render(&monWriter{failAt: 1, mode: m})
-			}
-			jen.Var().Id("leakedStmtByFailedWrite").Op("=").Lit(2).Render(&monWriter{failAt: 1, mode: m})
+		// which failure comes last varies with idx (the judged render follows the last one directly)
+		order := [][2]int{{2, 0}, {1, 0}, {0, 0}, {2, 1}, {1, 1}, {0, 1}}
+		for k := range order {
+			o := order[(k+int(uint64(idx)%6))%6]
+			jen.Var().Id("leakedStmtByFailedWrite").Op("=").Lit(2).Render(&monWriter{failAt: 1, mode: o[0]})
+			wf := jen.NewFile("leak")
+			wf.NoFormat = o[1] == 1
+			wf.Var().Id("leakedByFailedWrite").Op("=").Lit("secretQ")
+			wf.Func().Id("leakedFuncByFailedWrite").Params().Block()
+			wf.Render(&monWriter{failAt: 1, mode: o[0]})
 		}
 	})
 }
